@@ -15,3 +15,4 @@ import NutsModel.Thm.Controller
 import NutsModel.Thm.CtlTrace
 import NutsModel.Thm.C05
 import NutsModel.Thm.C05Run
+import NutsModel.Thm.C08
